@@ -2492,6 +2492,13 @@ class Emitter(Unit):
                 return '(%s %s %s)' % (self.expr(args[0], fc), name[8:], self.expr(args[1], fc))
         if name == 'hardware_concurrency':
             return '__verif_hardware_concurrency()'
+        if name in ('epsilon', 'max', 'min', 'lowest') and len(args) == 0:
+            t = T.strip_const(self.ntype(e, fc.fid))
+            pre = {'float': 'FLT', 'double': 'DBL', 'long double': 'LDBL', 'int': 'INT', 'long': 'LONG', 'unsigned long': 'ULONG', 'unsigned int': 'UINT'}.get(t[1])
+            if pre and (name != 'epsilon' or pre in ('FLT', 'DBL', 'LDBL')):
+                if name == 'lowest':
+                    return '(-__verif_%s_MAX)' % pre if pre in ('FLT', 'DBL', 'LDBL') else '__verif_%s_MIN' % pre
+                return '__verif_%s_%s' % (pre, {'epsilon': 'EPSILON', 'max': 'MAX', 'min': 'MIN'}[name])
         if name in ('Sqrt', 'sqrtf') or (name == 'sqrt' and self.cfg.get('sqrt_uninterpreted')):
             t = T.strip_const(self.ntype(e, fc.fid))
             return '__verif_sqrt_%s(%s)' % (t[1], self.expr(args[0], fc))
